@@ -386,7 +386,7 @@ func featureOf(h []op) []string {
 func Run(cfg fw.Config, rec *fw.Rec) {
 	log.SetOutput(io.Discard)
 	rec.Rule = "histories of 4-13 crew operations over machine ids {m1,m2,m3}: create (with/without state), replace state, replace spec (and, in a fifth of the histories, a spec that does not compile), delete, delete+re-create before the next report, re-create across messages (also byte-identical to an earlier create), roll back a spec swap by repeating the original deployment verbatim, replace the spec by a source that only names one - through captain messages and through direct SetMachine / DeleteMachine calls - interleaved with routed and broadcast messages to counter / recorder machines whose reactions commute; after every message the shadow store folded from Result.Changed must equal the live crew (existence, node, bindings, spec name); at every message boundary a crew booted from the JSON-round-tripped shadow must give the same emissions and machine states for the rest of the history; end to end: the same kind of histories typed into a crew wired like sio/siostd (real Stdio coupling, state file rewritten after every message): the state file must equal the live crew, and a crew started from the state file written after a prefix must end like, and emit like, the uninterrupted one; and stopping and starting twice more without any message in between must leave the state file as it was; a machine created, deleted and created again verbatim before the restarts is used after them; the state of the timers machine replaced (captain update / SetMachine; given another timer, none, the same and another) while a timer is pending: the store folded from the reports and a crew started from it hold the timers the crew holds; non-trivial = history with >= 2 crew operations other than messages; distinct by history"
-	rec.Required = []string{"shadow_equal_after_message", "restarts_compared", "replace_state", "replace_spec", "delete_recreate_before_report", "recreate_across_messages", "recreate_identical_to_an_earlier_create", "spec_swap_rolled_back_by_repeating_the_deployment", "spec_replaced_by_a_name_only_source", "recreated_without_a_spec_before_report", "stdio_state_file_equals_crew", "stdio_restarts_compared", "stdio_idle_lifetimes_keep_the_state", "timers_machine_state_replaced_while_a_timer_is_pending"}
+	rec.Required = []string{"shadow_equal_after_message", "restarts_compared", "replace_state", "replace_spec", "delete_recreate_before_report", "recreate_across_messages", "recreate_identical_to_an_earlier_create", "spec_swap_rolled_back_by_repeating_the_deployment", "spec_replaced_by_a_name_only_source", "recreated_without_a_spec_before_report", "stdio_state_file_equals_crew", "stdio_restarts_compared", "stdio_idle_lifetimes_keep_the_state", "timers_machine_state_replaced_while_a_timer_is_pending", "timers_machine_compared_after_a_firing"}
 	rec.Assume = []string{"reactions of different machines to one message commute (machines only touch their own bindings and emit to nobody)", "a missing stored state is the default start/{} the boot path supplies", "service machines captain and timers are not compared in the random histories (the timers machine is compared in the scenario that replaces its state)"}
 	n := cfg.Pick(1200, 20000)
 	fw.Parallel(cfg.Workers, n, func(w, i int) {
